@@ -176,7 +176,43 @@ func VerifC08History() {
 	}
 	e.view("after init")
 
+	mgmt := lib.VerifParam("mgmt", 0) == 1 // DisableChild / EnableChild in the alphabet
+	disabled := make([]bool, n)
+	enables := make([]int, n) // how often EnableChild started the child again
 	for step := 0; step < h && e.final == nil; step++ {
+		if mgmt && len(e.p.pending) == 0 {
+			switch lib.VerifPick("mgmt", 3) {
+			case 1:
+				j := lib.VerifPick("mgmt-child", n)
+				_, l := e.livePid(j)
+				spawned := e.spawnCount(j)
+				err := e.b.DisableChild(vfChildNames[j])
+				lib.VerifAssert(err != ErrSupervisorStrategyActive, "no restart is under way once every stop request has been honoured (DisableChild)")
+				lib.VerifAssert(err == nil, "DisableChild of a known child is accepted while no restart is under way")
+				if l {
+					disabled[j] = true
+				}
+				ok := e.drain(3*n + 3)
+				lib.VerifAssert(ok && e.final == nil, "disabling a child does not end the supervisor")
+				_, l = e.livePid(j)
+				lib.VerifAssert(!disabled[j] || (!l && e.spawnCount(j) == spawned), "a disabled child is stopped and not started again")
+				e.view("after DisableChild")
+				lib.VerifReach("child disabled")
+			case 2:
+				j := lib.VerifPick("mgmt-child", n)
+				err := e.b.EnableChild(vfChildNames[j])
+				lib.VerifAssert(err != ErrSupervisorStrategyActive, "no restart is under way once every stop request has been honoured (EnableChild)")
+				lib.VerifAssert(err == nil, "EnableChild of a known child is accepted while no restart is under way")
+				if disabled[j] {
+					disabled[j] = false
+					enables[j]++
+					_, l := e.livePid(j)
+					lib.VerifAssert(l, "enabling a disabled child starts it")
+					lib.VerifReach("child enabled")
+				}
+				e.view("after EnableChild")
+			}
+		}
 		// which running child dies now: one that was asked to stop, or any running one spontaneously
 		before := make([]gen.PID, n)
 		wasLive := make([]bool, n)
@@ -258,7 +294,7 @@ func VerifC08History() {
 					if strategy == SupervisorStrategyPermanent {
 						for j := 0; j < n; j++ {
 							_, l := e.livePid(j)
-							lib.VerifAssert(l, "permanent children are always running at quiescence")
+							lib.VerifAssert(l || disabled[j], "permanent children are always running at quiescence")
 						}
 					}
 				}
@@ -289,7 +325,9 @@ func VerifC08History() {
 			}
 			for j := 0; j < n; j++ {
 				now, l := e.livePid(j)
-				if j >= lo {
+				if j >= lo && disabled[j] {
+					lib.VerifAssert(!l, "a disabled child stays down when its group is restarted")
+				} else if j >= lo {
 					lib.VerifAssert(l && (!wasLive[j] || now != before[j]), "all/rest-for-one: every affected child is replaced")
 				} else {
 					lib.VerifAssert(l == wasLive[j] && (!l || now == before[j]), "rest-for-one: earlier children are left alone")
@@ -311,13 +349,14 @@ func VerifC08History() {
 			e.view("at quiescence")
 			if strategy == SupervisorStrategyTemporary {
 				for i := 0; i < n; i++ {
-					lib.VerifAssert(e.spawnCount(i) == 1, "temporary children are never restarted")
+					lib.VerifAssert(e.spawnCount(i) == 1+enables[i], "temporary children are never restarted")
 				}
 			}
 			if strategy == SupervisorStrategyPermanent {
 				for i := 0; i < n; i++ {
 					_, l := e.livePid(i)
-					lib.VerifAssert(l, "permanent children are always running at quiescence")
+					lib.VerifAssert(l || disabled[i], "permanent children are always running at quiescence")
+					lib.VerifAssert(!(l && disabled[i]), "a disabled child is not running")
 				}
 			}
 			lib.VerifReach("quiescent")
